@@ -152,3 +152,13 @@ package hotrestart
 //@   ghostdef childsteps == old(childsteps) + 1 && childlast == 4
 //@   callpre sendMessage @the-matching-request-goes-to-the-parent arg0 == r.parentConn && arg1 != nil && arg1.Type == 7
 //@   callpre readMessage @the-acknowledgement-is-awaited-on-the-same-connection arg0 == r.parentConn && len(sentBuf) >= 3 && sentBuf[0] == 7
+
+// ---- C17: the accept loop of the old process survives temporary accept errors: it gives up only on an error
+// that is not temporary (or when the restarter quits), so a later child can still connect ---------------------
+
+//@ func New$1
+//@   prop C17
+//@   modifies all
+//@   assume @before:handleChild deref(r) != nil
+//@   assume @after:Accept lastresult1 == nil ==> typeis(lastresult0, "*net.UnixConn") && ifaceptr(lastresult0, "*net.UnixConn") != nil
+//@   proves @ret:3 @the-accept-loop-gives-up-only-on-an-error-that-is-not-temporary !(ok && istemporary(nerr))
